@@ -43,6 +43,7 @@ theorem releaseItems_sentOn : ∀ (n : Nat) (w : World) (c : ConnSt) (k : Nat),
         · exact ih _ _ k
         · exact ih _ _ k
         · exact ih _ _ k
+        · exact ih _ _ k
         · rfl
         · by_cases hk : k = c.id
           · subst hk
